@@ -356,6 +356,9 @@ pub enum Event {
         /// a root with no DynamicRootSet and no ZstCache: the arena can become completely empty
         #[serde(default)]
         bare: bool,
+        /// a root type that holds no pointers (NEEDS_TRACE = false): nothing survives a callback
+        #[serde(default)]
+        static_root: bool,
     },
     DropArena { a: Aid },
 }
